@@ -28,7 +28,9 @@ VLEAVES = {
     "string": [("hello", "hello"), ("x", "x"), ("a b", "a b"), ("0", "0"), ("héé ✓", "héé ✓"), (" ", " "), (" \n\t", " \n\t"), ("", "")],
     "int": [(0, "0"), (7, "7"), (-12, "-12"), (2147483647, "2147483647"), (-2147483648, "-2147483648")],
     "boolean": [(True, "true"), (False, "false")],
-    "decimal": [(D("0"), "0"), (D("-1.5"), "-1.5"), (D("12345678901234567890.123"), "12345678901234567890.123")],
+    "decimal": [(D("0"), "0"), (D("-1.5"), "-1.5"), (D("12345678901234567890.123"), "12345678901234567890.123"),
+                # more significant digits than the default decimal context keeps
+                (D("12345678901234567890123.456789012345"), "12345678901234567890123.456789012345")],
     "double": [(0.0, "0.0"), (1.5, "1.5"), (-2.5, "-2.5"), (float("inf"), "INF")],
     "date": [(datetime.date(2000, 1, 1), "2000-01-01"), (datetime.date(1999, 12, 31), "1999-12-31")],
     "dateTime": [(datetime.datetime(2001, 2, 3, 4, 5, 6), "2001-02-03T04:05:06"),
